@@ -635,17 +635,19 @@ class Gen:
         f = lambda d=1: self.e_float(d)
         b = lambda: self.choice(["True", "False", self.e_bool(1)])
         txt = lambda: self.e_str(1)
-        small = lambda: self.int_lit(0, 5)
+        # small counts / waits: mostly literals, sometimes a run-time expression (several of them may meet in one call)
+        rt = lambda: self.macro(lambda: f"(abs({self.choice(self.names('int') or ['3'])}) % 4)")
+        small = lambda: self.int_lit(0, 5) if self.chance(0.6) else rt()
         calls = {
             "led": ["on()", "off()", "toggle()", f"set_brightness({i()})", f"blink({small()}, {small()})", f"blink(duration_ms={i()})", f"fade_in({i()}, {small()})",
-                    f"fade_out(step={small()}, delay_ms={small()})", f"flash_pattern([1, 0, {self.int_lit(0, 255)}], {small()})", "flash_pattern([])"],
+                    f"fade_out(step={small()}, delay_ms={small()})", f"blink({rt()}, {rt()})", f"fade_in({rt()} + 60, {rt()})", f"flash_pattern([1, 0, {self.int_lit(0, 255)}], {small()})", "flash_pattern([])"],
             "rgb": [f"set_color({i()}, {i()}, {i()})", f"on({i()}, {i()}, {i()})", "on()", "off()", f"fade({i()}, {i()}, {i()}, {small()}, {small()})",
                     f"blink({i()}, {i()}, {i()}, times={small()}, delay_ms={small()})", f"on(green={i()})"],
             "srv": [f"write({i()})", f"write({f()})", f"write_us({i()})", f"write_us(pulse={f()})"],
             "mot": [f"set_speed({f()})", f"backward({f()})", "backward()", "stop()", "coast()", "invert()", f"ramp({f()}, {small()})", f"run_for({small()}, {f()})", f"ramp(target_speed={f()}, duration_ms={i()})"],
             "bz": [f"play_tone({i()})", f"play_tone({f()}, {small()})", "stop()", f"beep({i()}, on_ms={small()}, off_ms={small()}, times={small()})", "beep()",
                    f"sweep({i()}, {i()}, duration_ms={small()}, steps={small()})", f"melody({self.choice(['success', 'error', 'startup', 'notify', 'alarm', 'scale_c', 'siren'])!r})",
-                   f"melody('siren', tempo={i()})"],
+                   f"melody('siren', tempo={i()})", f"beep(on_ms={rt()}, off_ms={rt()}, times={rt()})", f"sweep({i()}, {i()}, duration_ms={rt()}, steps={rt()})", f"play_tone({i()}, {rt()})"],
             "btn": [], "pot": [], "us": [],
             "lcd": None, "lci": None,
         }
